@@ -30,12 +30,13 @@ SPEC = dict(
             "refusal-at-edge-5", "refusal-at-edge-6",
             "refused-setpeer", "refused-setprotocol", "refused-setservice",
             "refused-setprotocol-at-peer-protocol", "refused-setservice-at-peer-service",
-            "allowlisted-admission", "allowlisted-setpeer-stays", "allowlisted-transfer-ok", "allowlisted-transfer-refused",
-            "gc-forfeits-direct-reservation", "gc-keeps-used-scope",
+            "allowlisted-admission", "allowlisted-refused", "allowlisted-setpeer-stays", "allowlisted-transfer-ok",
+            "allowlisted-transfer-refused", "allowlisted-transfer-then-peer-refused", "allowlisted-placement-enumerated",
+            "gc-forfeits-direct-reservation", "gc-keeps-used-scope", "gc-during-concurrent-phase",
             "subnet-cap-refusal", "subnet-readmits-after-release",
             "priority-scaled-refusal", "memory-near-overflow-refusal",
             "done-repeated", "done-on-closed-owner", "reserve-on-closed-scope",
-            "concurrent-spurious-refusal", "concurrent-done-race", "auditor-sample"],
+            "concurrent-refusal-with-op-in-flight", "concurrent-done-race", "auditor-sample"],
     real=["p2p/host/resource-manager (whole package, instrumented: sync->simsync, go->simrt.Go, select, map ranges)",
           "x/rate, go-multiaddr, core/network (uninstrumented, no goroutines)"],
     stubs=[],
